@@ -1,5 +1,6 @@
 import HpxVerif.Model.Bilinear
 import HpxVerif.Lemmas.NumReal
+import HpxVerif.Lemmas.BilinearReal
 
 /-!
 # C19 — bilinear interpolation returns a partition of unity over the right cells
@@ -13,8 +14,11 @@ source).  Proved for all offsets:
 * `weights_missing_zero`: when the corner neighbour is missing its slot carries weight 0;
 * `slots_have_cell`: the cell itself is one of the four slots, the corner slot is the cardinal direction of the
   quadrant and the two others are ordinal (the directions that always exist).
-Structural statement about the cells (`bilinear_cells`: the other three are entries of `neighbours h`) and the float
-rounding of the weights are validated by the bit-exact correspondence and the oracle.
+* `bilinear_mean`: corner present ⇒ the weighted mean of the four centres in the cell grid is the position;
+  `weights_missing_split`: corner missing ⇒ its share goes half and half to the two adjacent neighbours;
+* `bilinear_cells`, `bilinear_panics_iff` (every numeric instance): four pairs, the cell itself always present, the
+  others are the entries of `neighbours h` in the slot directions.
+The float rounding of the weights is validated by the bit-exact correspondence and the oracle.
 -/
 
 namespace Hpx.C19
@@ -69,5 +73,54 @@ theorem slots_have_cell : ∀ q, q < 4 →
     MW.C ∈ slots q ∧ (corner q).isCardinal = true ∧
     ((slots q).filter fun w => w != MW.C && w != corner q).all MW.isOrdinal = true := by
   decide
+
+/-! ## the weighted mean, and the structure of the result -/
+
+open Hpx.BilinearReal in
+/-- **`bilinear_mean`**: with the corner neighbour present, in every quadrant and for all real offsets, the weighted mean
+    of the four cell centres in the cell grid is the position itself: `Σ wₖ·(i + offsetSe(slotₖ) + ½) = i + dx` and
+    `Σ wₖ·(j + offsetSw(slotₖ) + ½) = j + dy` (`dx` runs along the `i` axis, `dy` along the `j` axis) -/
+theorem bilinear_mean (q : Nat) (hq : q < 4) (i j dx dy : ℝ) :
+    wsum (weights q true dx dy) (slots q) (cenI i) = i + dx ∧
+    wsum (weights q true dx dy) (slots q) (cenJ j) = j + dy := Hpx.BilinearReal.bilinear_mean q hq i j dx dy
+
+open Hpx.BilinearReal in
+/-- with the corner missing (next to the 8 three-cell points) the corner's share is split half and half between the two
+    adjacent ordinal neighbours and the corner slot carries 0 -/
+theorem weights_missing_split (q : Nat) (hq : q < 4) (dx dy : ℝ) :
+    weights q false dx dy = (slots q).map fun s =>
+      if s = corner q then 0
+      else if adjacent (corner q) s then wOf q dx dy s + wOf q dx dy (corner q) / 2
+      else wOf q dx dy s := weights_missing_eq q hq dx dy
+
+open Hpx.BilinearReal in
+/-- **`bilinear_cells`, for every numeric instance** (every `f64` at `Float`): whenever `bilinear_interpolation` returns,
+    it returns four `(cell, weight)` pairs; the weights are `weights q present dx dy` in slot order; the cell of the
+    position (as returned by `hash_with_dxdy`) is always one of the four; every other cell is the entry of
+    `neighbours(h)` in the direction its slot names, except the missing-corner slot, which carries the cell itself -/
+theorem bilinear_cells {α : Type} [Num α] (cfg : Cfg) (d : Nat) (lon lat : α) (l : List (Nat × α))
+    (hb : bilinear cfg d lon lat = some l) :
+    ∃ h dx dy nm, Hash.hashWithDxDy cfg d lon lat = some (h, dx, dy) ∧ Topo.neighbours cfg d h true = some nm ∧
+      ∃ cell : MW → Nat,
+        l = List.zipWith (fun w wt => (cell w, wt)) (slots (quad dx dy))
+              (weights (quad dx dy) (cornerPresent nm (quad dx dy)) dx dy) ∧
+        l.length = 4 ∧
+        l.map (·.2) = weights (quad dx dy) (cornerPresent nm (quad dx dy)) dx dy ∧
+        l.map (·.1) = (slots (quad dx dy)).map cell ∧
+        MW.C ∈ slots (quad dx dy) ∧ cell MW.C = h ∧ h ∈ l.map (·.1) ∧
+        ∀ w ∈ slots (quad dx dy),
+          (w = corner (quad dx dy) ∧ cornerPresent nm (quad dx dy) = false ∧ cell w = h) ∨
+          (getN nm w = some (cell w) ∧ (w, cell w) ∈ nm) := bilinear_structure cfg d lon lat l hb
+
+open Hpx.BilinearReal in
+/-- it panics only if `hash_with_dxdy` or `neighbours` does, or an ORDINAL neighbour (SE/SW/NE/NW) is missing — which
+    never happens (C04: only cardinal neighbours can be missing) -/
+theorem bilinear_panics_iff {α : Type} [Num α] (cfg : Cfg) (d : Nat) (lon lat : α) :
+    bilinear cfg d lon lat = none ↔
+      Hash.hashWithDxDy cfg d lon lat = none ∨
+      ∃ h dx dy, Hash.hashWithDxDy cfg d lon lat = some (h, dx, dy) ∧
+        (Topo.neighbours cfg d h true = none ∨
+         ∃ nm, Topo.neighbours cfg d h true = some nm ∧
+           ∃ w ∈ slots (quad dx dy), w.isOrdinal = true ∧ getN nm w = none) := bilinear_none_iff cfg d lon lat
 
 end Hpx.C19
